@@ -176,11 +176,19 @@ class Data2D(Block):
             self.nCams == o.nCams
             and self.nFrames == o.nFrames
             and self.frequency == o.frequency
-            and self.startTime == o.startTime
+            and np.float32(self.startTime) == np.float32(o.startTime)
             and self.flags == o.flags
             and np.array_equal(self._camMap, o._camMap)
             and all(
-                np.array_equal(self.data[i, j], o.data[i, j])
+                (self.data[i, j] is None) == (o.data[i, j] is None)
+                and (
+                    self.data[i, j] is None
+                    # points are stored as 32 bit floats: compare them at that width
+                    or np.array_equal(
+                        np.asarray(self.data[i, j], dtype=f32.btype),
+                        np.asarray(o.data[i, j], dtype=f32.btype),
+                    )
+                )
                 for i in range(self.nFrames)
                 for j in range(self.nCams)
             )
